@@ -495,6 +495,7 @@ func (fr *Frame) applyContract(ct *Contract, callee *ssa.Function, sig *types.Si
 		rnames = resultNames(sig)
 	}
 	fr.setResult(res, vals)
+	x.recordEvent(pc, cname, vals, args)
 	// 5. ensures
 	post := x.envForFunc(callee, sig, names, args, st, pre)
 	post.pkg = env.pkg
@@ -855,6 +856,7 @@ func (fr *Frame) unknownCall(c *ssa.CallCommon, callee *ssa.Function, args []Val
 		vals = append(vals, x.freshValue(sig.Results().At(i).Type(), "ret_"+sanitize(shortName(name))))
 	}
 	fr.setResult(res, vals)
+	x.recordEvent(pc, name, vals, args)
 	x.unknownCalls[name]++
 	return pc
 }
@@ -1725,4 +1727,20 @@ func contentsHeapName(n string, fn *ssa.Function) string {
 		}
 	}
 	return "E:"
+}
+
+func (x *X) recordEvent(pc *Term, name string, vals []Value, args []Value) {
+	if !strings.Contains(name, "Read") && !strings.Contains(name, "Lstat") && !strings.Contains(name, "Stat") {
+		return
+	}
+	ev := callEvent{Guard: pc, Name: name}
+	for _, v := range vals {
+		ev.Vals = append(ev.Vals, v.L...)
+	}
+	for _, a := range args {
+		if _, ok := a.T.Underlying().(*types.Slice); ok {
+			ev.Lens = append(ev.Lens, a.L[2])
+		}
+	}
+	x.events = append(x.events, ev)
 }
